@@ -8,7 +8,7 @@ using namespace vf;
 enum Outcome { OC_OK, OC_FAIL_SILENT, OC_FAIL_OWNERR, OC_OK_OWNERR };
 struct Entry { bool query; std::vector<OItem> items; int outcome; int ownErrAt; bool hasParam; };
 struct UnitRef { int entry; bool badParam; bool undefinedQuery; };   // entry -1 = undefined header
-struct FCase { std::vector<Entry> entries; std::vector<std::vector<UnitRef>> messages; std::vector<std::string> texts; };
+struct FCase { std::vector<Entry> entries; std::vector<std::vector<UnitRef>> messages; std::vector<std::string> texts; bool decoy = false; bool noFlush = false; };
 
 static FCase decode(Src &s) {
     FCase c;
@@ -42,6 +42,8 @@ static FCase decode(Src &s) {
         t += s.pick(std::vector<std::string>{"\n", "\r\n"});
         c.messages.push_back(units); c.texts.push_back(t);
     }
+    c.decoy = s.prob(1, 4);      // a second instrument is fed the same bytes first (fixture.hpp)
+    c.noFlush = s.prob(1, 5);    // an interface without the optional flush/control/reset callbacks: the bytes are the same
     return c;
 }
 
@@ -60,7 +62,7 @@ static std::string describe(const FCase &c) {
 }
 
 static std::string runCase(const FCase &c, bool *nt = nullptr, std::vector<std::string> *labels = nullptr) {
-    InstCfg k; k.bufLen = 256; k.queueLen = 64; k.heapLen = 4096;
+    InstCfg k; k.bufLen = 256; k.queueLen = 64; k.heapLen = 4096; k.decoy = c.decoy; k.noOptionalCallbacks = c.noFlush;
     for (auto &t : c.texts) if (t.size() + 8 > k.bufLen) { k.bufLen = t.size() + 8; k.queueLen = 640; k.heapLen = 16384; }
     for (size_t i = 0; i < c.entries.size(); i++) {
         const Entry &e = c.entries[i];
@@ -103,7 +105,7 @@ static std::string runCase(const FCase &c, bool *nt = nullptr, std::vector<std::
         std::string expA = join(unitsA), expB = join(unitsB);
         if (I.out != expA && I.out != expB)
             return fmt("message %zu: output '", m) + vis(I.out) + "' is neither '" + vis(expA) + "'" + (expB != expA ? " nor '" + vis(expB) + "'" : "") + ": " + describe(c);
-        int expFlush = I.out.empty() ? 0 : 1;
+        int expFlush = I.out.empty() || c.noFlush ? 0 : 1;
         if (I.flushes != expFlush) return fmt("message %zu: %d flushes, expected %d: ", m, I.flushes, expFlush) + describe(c);
         if (expFlush) { bool seenF = false; for (auto &l : I.trace) { if (l == "F") seenF = true; else if (l[0] == 'W' && seenF) return fmt("message %zu: bytes written after the flush: ", m) + describe(c); } }
     }
